@@ -39,11 +39,16 @@ Barrier = BarrierType()
 
 
 def _to_naive_utc_time(value: dt.datetime | None) -> dt.datetime | None:
-    return (
-        value.astimezone(dt.timezone.utc).replace(tzinfo=None)
-        if value and value.tzinfo
-        else value
-    )
+    if value is None:
+        return None
+    if value.tzinfo is None:
+        # A naive datetime denotes local time (astimezone honours its fold attribute).
+        try:
+            return value.astimezone(dt.timezone.utc).replace(tzinfo=None)
+        except (OverflowError, ValueError, OSError):
+            # Outside the range the platform can convert, e.g. datetime.min.
+            return value
+    return value.astimezone(dt.timezone.utc).replace(tzinfo=None)
 
 
 def _get_stale_scope(call: Call, registry: Registry) -> tuple:
